@@ -50,4 +50,11 @@ def ofKey (k : Key) : PyVal :=
 def ofVer (cls : String) (v : Ver) : PyVal :=
   .obj cls [("_version", ofVersionTuple v), ("_key", ofKey (cmpkey v))]
 
+/-- `Version(s)` / `_TrimmedRelease(s)`: the constructor as a primitive backed by the scanner `V.scan`
+(`Version.__init__`: regex match, `_Version(...)`, `_cmpkey(...)`) -/
+def mkVersion (cls : String) (s : PyVal) : M PyVal :=
+  match s with
+  | .str s => (match scan s with | some v => pure (ofVer cls v) | none => throw "InvalidVersion")
+  | _ => throw typeError
+
 end PyRt
